@@ -1,6 +1,6 @@
 """E3 query for C13, semantic form (written after round-7 seed r7_c13_c, which rewrote the function as a lockstep walk):
-c13_news_semantic — `Store::has_news_for_us` executed (PMExec) over K1 <= 2 (thorough tier: <= 4) of OUR head rows (as `get_latest_for_each_author`
-  yields them: ascending by author, all Ok) and K2 <= 2 (thorough: <= 4) heads of the PEER's report (ascending by author, as a B-tree map iterates),
+c13_news_semantic — `Store::has_news_for_us` executed (PMExec) over K1 <= 3 (thorough tier: <= 4) of OUR head rows (as `get_latest_for_each_author`
+  yields them: ascending by author, all Ok) and K2 <= 3 (thorough: <= 4) heads of the PEER's report (ascending by author, as a B-tree map iterates),
   authors and timestamps symbolic integers.  Whatever way the function computes it — by building our head set and asking
   `theirs.has_news_for(ours)` (answered here from the set that was actually built: the law of `has_news_for` itself is
   c13_heads_news) or by walking both sequences — on every feasible path that succeeds the answer is
@@ -14,7 +14,7 @@ from stdmodels import PMExec, Inconclusive, std_models, _deep, seq_next
 from queries_c05 import _find
 
 THOROUGH = __import__("os").environ.get("VERIF_E3_TIER", "quick") == "thorough"
-KS = (0, 1, 2, 3, 4) if THOROUGH else (0, 1, 2)   # rows of ours / heads of theirs per run
+KS = (0, 1, 2, 3, 4) if THOROUGH else (0, 1, 2, 3)   # rows of ours / heads of theirs per run
 
 
 def _spec(K1, K2):
